@@ -88,10 +88,17 @@ def _work(args):
         if opts.get("printable"):
             for enc in ("utf-8", "ascii"):
                 obs.append(run_one(case, r, seed, encoding=enc, variant="printable"))
+        if opts.get("broken_stdout") and r.random() < opts["broken_stdout"]:
+            # a stdout on which every write fails (reader gone, disk full): whatever else happens, nothing may be ACCEPTED that is not allowed
+            o = run_one(case, r, seed, encoding=r.choice(lib.BROKEN_STDOUTS), variant="broken-stdout")
+            o["unjudged"] = o["observed"] != "accept"
+            obs.append(o)
         for o in obs:
             res["n"] += 1
             if o["observed"] == "accept":
                 res["accepts"] += 1
+            if o.get("unjudged"):
+                continue
             if lib.family(o["observed"]) not in o["allowed"] or o.get("mutated"):
                 res["bad"].append(o)
         trivial = all(v[0] == "absent" for v in case["e"]) and case["alt"][0] == "absent" and case["junk"][0] == "absent"
